@@ -75,30 +75,30 @@ type cWrite struct {
 
 // cTx is the ledger entry of one Start / Do / Indicate call.
 type cTx struct {
-	idx         int
-	kind        cTxKind
-	id          [stun.TransactionIDSize]byte
-	task        int
-	snapshot    []byte
-	size        int
-	invoke      int // seq
-	invokeAt    time.Time
-	returned    bool
-	retSeq      int
-	ret         error
-	calls       []cCall
-	writes      []cWrite
-	rtoMin      time.Duration
-	rtoSet      []time.Duration
-	limit       int  // n: retransmission limit in force
-	afterClose  bool // began after the successful Close returned
-	doCbDone    bool
-	lb          []time.Time // lb[k]: lower bound of the clock reading taken for transmission k
-	writeFailed bool
-	kc          bool // known-finding family K-c: a timeout callback for this id overlapped the processing of a datagram with this id or this transaction's own Start call
+	idx          int
+	kind         cTxKind
+	id           [stun.TransactionIDSize]byte
+	task         int
+	snapshot     []byte
+	size         int
+	invoke       int // seq
+	invokeAt     time.Time
+	returned     bool
+	retSeq       int
+	ret          error
+	calls        []cCall
+	writes       []cWrite
+	rtoMin       time.Duration
+	rtoSet       []time.Duration
+	limit        int  // n: retransmission limit in force
+	afterClose   bool // began after the successful Close returned
+	doCbDone     bool
+	lb           []time.Time // lb[k]: lower bound of the clock reading taken for transmission k
+	writeFailed  bool
+	kc           bool // known-finding family K-c: a timeout callback for this id overlapped the processing of a datagram with this id or this transaction's own Start call
 	firstWriteOK bool
-	cbBegun     int
-	reuseOf     int
+	cbBegun      int
+	reuseOf      int
 }
 
 func (t *cTx) name() string {
